@@ -46,6 +46,17 @@ func c10Item(e c10Entry, variant int) ap.Item {
 		return &ap.Actor{ID: ap.IRI(id), Type: ap.PersonType, PreferredUsername: ap.DefaultNaturalLanguageValue("u")}
 	case "object":
 		return &ap.Object{ID: ap.IRI(id), Type: ap.GroupType}
+	case "near":
+		// another addressee whose id is as close as a different identity gets: the same host and path with a query
+		if strings.Contains(id, "#") {
+			return ap.IRI(id + "-other")
+		}
+		return ap.IRI(id + "?page=1")
+	case "near-object":
+		if strings.Contains(id, "#") {
+			return ap.IRI(id + "-other")
+		}
+		return &ap.Object{ID: ap.IRI(id + "?page=1&page=2"), Type: ap.GroupType}
 	case "variant":
 		if strings.Contains(id, "#") {
 			return ap.IRI(id)
@@ -244,6 +255,7 @@ func TestC10(t *testing.T) {
 		"to/cc/bto/bcc for Object, Activity and Block activities (blocked = alice); random: all five addressing properties (+actor), lists up to 8 over 5 addressees incl. the public collection " +
 		"in IRI / embedded actor / embedded object / scheme-case-trailing-slash variant presentations and nil entries, all 13 types with Recipients(). Oracle: reference first-mention scan " +
 		"(to, cc, bto, bcc, [actor], audience) under the IRI normaliser ignoring scheme; returned list and the four lists after the call are compared; Block clause. " +
+		"near: the same pair enumeration over {alice, alice?page=1, an object alice?page=1&page=2}: three different addressees whose ids differ only in the query. " +
 		"non-trivial = at least one addressee mentioned twice; distinct by the assignment")
 
 	alpha := []c10Entry{{0, "iri"}, {1, "iri"}, {0, "actor"}, {-1, "nil"}}
@@ -259,6 +271,44 @@ func TestC10(t *testing.T) {
 		}
 	}
 	build(nil)
+	// second alphabet: alice, and two other addressees whose ids differ from hers only in the query
+	alpha = []c10Entry{{0, "iri"}, {0, "near"}, {0, "near-object"}}
+	first := len(lists)
+	build(nil)
+	nearLists := lists[first:]
+	lists = lists[:first]
+	if r.WantLayer("near", true) {
+		props := []string{"To", "CC", "Bto", "BCC"}
+		total, done := 0, 0
+		for _, vr := range []struct{ gt, vt string }{{"Object", "Note"}, {"Activity", "Block"}} {
+			for a := 0; a < len(props); a++ {
+				for b := a + 1; b < len(props); b++ {
+					for _, la := range nearLists {
+						for _, lb := range nearLists {
+							total++
+							c := c10Case{GoType: vr.gt, VType: vr.vt, Lists: map[string][]c10Entry{props[a]: la, props[b]: lb}}
+							if vr.vt == "Block" {
+								c.BlockObj = &c10Entry{0, "iri"}
+							}
+							cell := "near " + c.String()
+							if !r.WantCell(cell) {
+								continue
+							}
+							done++
+							ds, dup := c10Run(c)
+							r.Case(cell, len(la)+len(lb) >= 2, "near "+vr.vt, "near dup="+dup)
+							if done%4001 == 0 {
+								r.Sample(cell, map[string]interface{}{"layer": "near", "case": cell})
+							}
+							reportAll(r, "near", cell, ds, cell)
+						}
+					}
+				}
+			}
+		}
+		r.Cells(total, done)
+		r.Exhaustive("near", !r.Replaying())
+	}
 	if r.WantLayer("pairs", true) {
 		props := []string{"To", "CC", "Bto", "BCC"}
 		variants := []struct{ gt, vt string }{{"Object", "Note"}, {"Activity", "Create"}, {"Activity", "Block"}}
@@ -293,7 +343,7 @@ func TestC10(t *testing.T) {
 		r.Exhaustive("pairs", !r.Replaying())
 	}
 
-	forms := []string{"iri", "iri", "actor", "object", "variant"}
+	forms := []string{"iri", "iri", "actor", "object", "variant", "near", "near-object"}
 	r.Rapid(t, "random", r.Pick(4000, 30000), func(t *rapid.T) {
 		gt := rapid.SampledFrom(c10Types).Draw(t, "gotype")
 		c := c10Case{GoType: gt, VType: string(rapid.SampledFrom(vocab.NamesFor(gt)).Draw(t, "vtype")), Lists: map[string][]c10Entry{}}
